@@ -5,12 +5,8 @@ def generate(h):
     t = ""
     t += h.defn_N("c05_guard_size_disabled", "include/CppUTest/MemoryLeakDetector.h",
                   r"#ifdef\s+CPPUTEST_DISABLE_MEM_CORRUPTION_CHECK\s*\n\s*memory_corruption_buffer_size\s*=\s*(\d+)", "guard size when the corruption check is disabled")
-    # calculateVoidPointerAlignedSize:  (sizeof(void*) - (size % sizeof(void*))) + size   in the guarded build, identity otherwise
-    src = h.src("src/CppUTest/MemoryLeakDetector.cpp")
-    import re
-    m = re.search(r"static\s+size_t\s+calculateVoidPointerAlignedSize\(size_t size\)\s*\{\s*#ifndef\s+CPPUTEST_DISABLE_MEM_CORRUPTION_CHECK\s*"
-                  r"return\s*\(sizeof\(void\*\)\s*-\s*\(size\s*%\s*sizeof\(void\*\)\)\)\s*\+\s*size;\s*#else\s*return\s+size;\s*#endif\s*\}", src)
-    if not m:
-        h.errors.append("src/CppUTest/MemoryLeakDetector.cpp: calculateVoidPointerAlignedSize no longer has the modelled shape")
+    # The shape of calculateVoidPointerAlignedSize is deliberately not pinned here: the differential run compares the exact size
+    # of every underlying request for every size 0..4096 and around every power of two, so any change of the rounding that
+    # changes a value is seen there, and a rewrite that computes the same values stays quiet.
     t += "(* LP64: sizeof(void* ) *)\nDefinition c05_ptr_size : N := 8%N.\n"
     return t
